@@ -1,6 +1,7 @@
 package main
 
 import (
+	"go/token"
 	"go/types"
 	"sort"
 
@@ -152,8 +153,9 @@ func isDecodeCall(in ssa.Instruction) bool {
 
 // registeredLayerFields lists, for a constructor function, the selector
 // strings of the struct fields whose address is passed to
-// DecodingLayerContainer.Put (these are overwritten by every decode).
-func registeredLayerFields(fn *ssa.Function) []string {
+// DecodingLayerContainer.Put (these are overwritten by every decode) and whose
+// layer type carries decoded state into its serialiser (see carriesDecodedState).
+func (c *Ctx) registeredLayerFields(fn *ssa.Function) []string {
 	var out []string
 	allInstrs(fn, false, func(in ssa.Instruction) {
 		if !isCallTo(in, fnDLCPut) {
@@ -164,11 +166,248 @@ func registeredLayerFields(fn *ssa.Function) []string {
 			return
 		}
 		a := apOf(cc.Args[0])
-		if len(a.Sel) > 0 {
-			out = append(out, a.SelString())
+		if len(a.Sel) == 0 {
+			return
 		}
+		if !c.layerCarriesDecodedState(c.layerTypesOf(stripConv(cc.Args[0]))) {
+			return
+		}
+		out = append(out, a.SelString())
 	})
 	return out
+}
+
+// layerCarriesDecodedState: can a value of static type t, after a decode,
+// serialise differently than a fresh one? True when, for (one of) the concrete
+// layer type(s), the serialiser reads a field the decoder writes. A layer whose
+// serialiser looks only at configuration the decoder never touches (the AES
+// layer: its cipher) is the same whether or not it has decoded anything.
+func (c *Ctx) layerCarriesDecodedState(ts []types.Type) bool {
+	if len(ts) == 0 {
+		return true
+	}
+	for _, t := range ts {
+		if c.typeCarriesDecodedState(t) {
+			return true
+		}
+	}
+	return false
+}
+
+// layerTypesOf: the static type of a registered layer value or, when that is
+// an interface held in a struct field, the concrete types that are ever stored
+// into that field anywhere in the module (nil: could not be determined).
+func (c *Ctx) layerTypesOf(v ssa.Value) []types.Type {
+	if !types.IsInterface(v.Type()) {
+		return []types.Type{v.Type()}
+	}
+	ld, ok := v.(*ssa.UnOp)
+	if !ok || ld.Op != token.MUL {
+		return nil
+	}
+	fa, ok := ld.X.(*ssa.FieldAddr)
+	if !ok {
+		return nil
+	}
+	fld := structField(fa.X.Type(), fa.Field)
+	if fld == nil {
+		return nil
+	}
+	var out []types.Type
+	seen := map[ssa.Value]bool{}
+	unknown := false
+	var flow func(x ssa.Value, depth int)
+	flow = func(x ssa.Value, depth int) {
+		if seen[x] || depth > 12 {
+			return
+		}
+		seen[x] = true
+		if isNilConst(x) {
+			return
+		}
+		switch y := x.(type) {
+		case *ssa.MakeInterface:
+			out = append(out, y.X.Type())
+		case *ssa.ChangeInterface:
+			flow(y.X, depth+1)
+		case *ssa.Phi:
+			for _, e := range y.Edges {
+				flow(e, depth+1)
+			}
+		case *ssa.Call:
+			f := y.Call.StaticCallee()
+			if f == nil || f.Blocks == nil || !c.InModule(f) {
+				unknown = true
+				return
+			}
+			for _, ret := range returnsOf(f) {
+				if len(ret.Results) >= 1 {
+					flow(ret.Results[0], depth+1)
+				}
+			}
+		case *ssa.Extract:
+			call, ok := y.Tuple.(*ssa.Call)
+			if !ok {
+				unknown = true
+				return
+			}
+			f := call.Call.StaticCallee()
+			if f == nil || f.Blocks == nil || !c.InModule(f) {
+				unknown = true
+				return
+			}
+			for _, ret := range returnsOf(f) {
+				if y.Index < len(ret.Results) {
+					flow(ret.Results[y.Index], depth+1)
+				} else if len(ret.Results) == 1 {
+					// return g(...) forwarding a tuple
+					flow(&ssa.Extract{Tuple: ret.Results[0], Index: y.Index}, depth+1)
+				}
+			}
+		default:
+			if !types.IsInterface(x.Type()) {
+				out = append(out, x.Type())
+				return
+			}
+			unknown = true
+		}
+	}
+	n := 0
+	for _, fn := range c.ModFn {
+		if fn.Blocks == nil {
+			continue
+		}
+		rawInstrs(fn, false, func(in ssa.Instruction) {
+			st, ok := in.(*ssa.Store)
+			if !ok {
+				return
+			}
+			fa2, ok := st.Addr.(*ssa.FieldAddr)
+			if !ok || structField(fa2.X.Type(), fa2.Field) != fld {
+				return
+			}
+			n++
+			flow(st.Val, 0)
+		})
+	}
+	if unknown || n == 0 {
+		return nil
+	}
+	return out
+}
+
+func (c *Ctx) typeCarriesDecodedState(t types.Type) bool {
+	var cands []*types.Named
+	if pt, ok := t.Underlying().(*types.Pointer); ok {
+		if n, ok := pt.Elem().(*types.Named); ok {
+			cands = append(cands, n)
+		}
+	}
+	if n, ok := t.(*types.Named); ok {
+		if iface, isI := n.Underlying().(*types.Interface); isI {
+			for _, p := range c.ModulePackages() {
+				names := p.Types.Scope().Names()
+				sort.Strings(names)
+				for _, nm := range names {
+					tn, ok := p.Types.Scope().Lookup(nm).(*types.TypeName)
+					if !ok || tn.IsAlias() {
+						continue
+					}
+					nt, ok := tn.Type().(*types.Named)
+					if !ok || types.IsInterface(nt) {
+						continue
+					}
+					if types.Implements(types.NewPointer(nt), iface) || types.Implements(nt, iface) {
+						cands = append(cands, nt)
+					}
+				}
+			}
+		} else {
+			cands = append(cands, n)
+		}
+	}
+	if len(cands) == 0 {
+		return true // unknown layer type: assume it does
+	}
+	for _, n := range cands {
+		ser, dec := c.MethodOf(n, "SerializeTo"), c.MethodOf(n, "DecodeFromBytes")
+		if ser == nil || dec == nil || ser.Blocks == nil || dec.Blocks == nil {
+			continue
+		}
+		rd, _ := receiverFieldUse(ser)
+		_, wr := receiverFieldUse(dec)
+		for f := range rd {
+			if wr[f] {
+				return true
+			}
+		}
+	}
+	return false
+}
+
+// receiverFieldUse lists the receiver's top-level fields that a method's
+// flattened view reads and writes. A field whose address escapes into a call
+// counts as both.
+func receiverFieldUse(m *ssa.Function) (reads, writes map[string]bool) {
+	reads, writes = map[string]bool{}, map[string]bool{}
+	if len(m.Params) == 0 {
+		return
+	}
+	recv := ssa.Value(m.Params[0])
+	allInstrs(m, false, func(in ssa.Instruction) {
+		fa, ok := in.(*ssa.FieldAddr)
+		if !ok {
+			return
+		}
+		ap := flatAP(m, fa)
+		if ap.Root != recv || len(ap.Sel) == 0 {
+			if cp := cellParam0(ap.Root); cp == nil || ssa.Value(cp) != recv || len(ap.Sel) == 0 {
+				return
+			}
+		}
+		top := ap.Sel[0]
+		var walk func(v ssa.Value, depth int)
+		walk = func(v ssa.Value, depth int) {
+			refs := v.Referrers()
+			if refs == nil || depth > 6 {
+				return
+			}
+			for _, ref := range *refs {
+				switch x := ref.(type) {
+				case *ssa.Store:
+					if x.Addr == v {
+						writes[top] = true
+					} else {
+						reads[top] = true
+					}
+				case *ssa.UnOp:
+					reads[top] = true
+				case *ssa.FieldAddr:
+					if x != fa || depth > 0 {
+						walk(x, depth+1)
+					}
+				case *ssa.IndexAddr, *ssa.Slice:
+					walk(x.(ssa.Value), depth+1)
+					if _, isSl := x.(*ssa.Slice); isSl {
+						reads[top] = true
+					}
+				case *ssa.DebugRef:
+				default:
+					reads[top], writes[top] = true, true
+				}
+			}
+		}
+		walk(fa, 0)
+	})
+	return
+}
+
+// cellParam0: the parameter a spilled-receiver cell holds, if v is such a cell.
+func cellParam0(v ssa.Value) *ssa.Parameter {
+	if al, ok := v.(*ssa.Alloc); ok {
+		return cellParam(al)
+	}
+	return nil
 }
 
 // wholeStore: a Store whose address is a struct-typed field location (whole
